@@ -71,6 +71,10 @@ func ruleSwallow(c *Ctx, rule string, fns []*ssa.Function) {
 			if len(culprit) == 0 {
 				continue
 			}
+			if fallbackRecovered(fi, r, ei) {
+				c.OK(rule, name+": fallback", c.P.Pos(r.Pos()), "a first attempt failed, a second computation made after that failure succeeded (its error is known nil here) and produced what is returned: the first error is superseded, not swallowed")
+				continue
+			}
 			if why, ok := swallowExceptions[name]; ok {
 				c.OK(rule, name, c.P.Pos(r.Pos()), "tabled exception: "+why)
 				continue
@@ -151,6 +155,9 @@ func ruleSwallow(c *Ctx, rule string, fns []*ssa.Function) {
 						// return is an "unreported" end unless the error was handed somewhere before it
 						ps.atReturn = func(ret *ssa.Return, k knowMap) bool { return ei < 0 || !returnIsFailure(fi, ret, ei, k) }
 						if ps.run() {
+							if fr, isRet := ps.Found.(*ssa.Return); isRet && ei >= 0 && fallbackRecovered(fi, fr, ei) {
+								continue
+							}
 							if why, ok := swallowExceptions[name]; ok {
 								c.OK(rule, name, c.P.Pos(t.Pos()), "tabled exception: "+why)
 								continue
@@ -166,6 +173,92 @@ func ruleSwallow(c *Ctx, rule string, fns []*ssa.Function) {
 			c.OK(rule, name, c.P.Pos(fn.Pos()), fmt.Sprintf("%d return(s): none returns nil while an error value is known non-nil", nret))
 		}
 	}
+}
+
+// fallbackRecovered: at return r some earlier error is known non-nil, but the value returned comes from a
+// LATER fallible call — one made where that failure was already known — whose own error is known nil at r
+// (parse as integer, else parse as float; look up here, else look up there).
+func fallbackRecovered(fi *FactInfo, r *ssa.Return, ei int) bool {
+	if r == nil {
+		return false
+	}
+	facts := fi.At(r.Block())
+	var failed []ssa.Value
+	for f := range facts {
+		if f.Kind == "nonnil" && f.Pol && isErrorType(f.V.Type()) {
+			failed = append(failed, f.V)
+		}
+	}
+	if len(failed) == 0 {
+		return false
+	}
+	var derives func(v ssa.Value, from *ssa.Call, depth int) bool
+	derives = func(v ssa.Value, from *ssa.Call, depth int) bool {
+		if v == nil || depth > 6 {
+			return false
+		}
+		if v == ssa.Value(from) {
+			return true
+		}
+		switch x := v.(type) {
+		case *ssa.Extract:
+			return x.Tuple == ssa.Value(from)
+		case *ssa.Alloc:
+			// a composite built from the value
+			for _, ref := range *x.Referrers() {
+				if fa, ok := ref.(*ssa.FieldAddr); ok {
+					for _, fr := range *fa.Referrers() {
+						if st, ok := fr.(*ssa.Store); ok && derives(st.Val, from, depth+1) {
+							return true
+						}
+					}
+				}
+			}
+			return false
+		}
+		in, ok := v.(ssa.Instruction)
+		if !ok {
+			return false
+		}
+		for _, op := range in.Operands(nil) {
+			if *op != nil && derives(*op, from, depth+1) {
+				return true
+			}
+		}
+		return false
+	}
+	for f := range facts {
+		if f.Kind != "nonnil" || f.Pol || !isErrorType(f.V.Type()) {
+			continue
+		}
+		// f.V is an error known nil here: the later call it belongs to
+		var call *ssa.Call
+		switch x := f.V.(type) {
+		case *ssa.Extract:
+			call, _ = x.Tuple.(*ssa.Call)
+		case *ssa.Call:
+			call = x
+		}
+		if call == nil {
+			continue
+		}
+		// made where an earlier failure was already known
+		after := false
+		for _, e := range failed {
+			if fi.Holds(call.Block(), Fact{"nonnil", e, true}) {
+				after = true
+			}
+		}
+		if !after {
+			continue
+		}
+		for i, res := range r.Results {
+			if i != ei && derives(res, call, 0) {
+				return true
+			}
+		}
+	}
+	return false
 }
 
 // testsAnError: the function compares an error-typed call result with nil.
